@@ -6,6 +6,7 @@ from contracts.bounded_upd import run_bounded
 def run(run):
     run.assume("S-REAL", "S-PY", "S-NUMPY", "A-LSODA", "A-EIG")
     UF.c06_facets(run)
+    UF.callee_frames(run)
     UF.update_all_facets(run)
     run.note("det F = exp(int tr L) and split-interval composition are consequences of the ODE (Liouville / semigroup property), cited not proved")
     run_bounded(run, ["C06", "C08"], "returned F vs DOP853 reference (rtol 1e-11), all scenarios; bulk update returns the same F", UF.FN)
